@@ -119,6 +119,7 @@ class FreeOpts:
         self.blanks = False      # vary blanks between tokens
         self.directives = 0      # percent of comments that are directive-shaped
         self.trail_blanks = 0    # percent of physical lines that get 1-8 trailing blanks (blank lines: blanks only)
+        self.big_indent = 0      # percent of statements indented by 40-70 columns (line length stays <= 132)
         self.excl = set()
         self.names = None        # set of lower-case identifiers that are names (others = keywords)
         for k, v in kw.items():
@@ -139,6 +140,10 @@ class Layout:
     @property
     def text(self):
         return "\n".join(self.lines) + "\n"
+
+
+def gen_stmt_text(st):
+    return (st.label + " " if st.label else "") + (st.cname + ": " if st.cname else "") + st.src
 
 
 def _case_word(r, w, mode):
@@ -216,6 +221,10 @@ def free_layout(flat, rnd, opts):
                 and st.role not in ("open", "close") or False)
         if join and st.block is not None and st.block.unit:
             join = False
+        if (not first_stmt and opts.big_indent and r.chance(opts.big_indent)
+                and len(gen_stmt_text(st)) + 72 <= 130):
+            ind = r.n(40, 70)
+            lay.features.add("big_indent")
         if not join:
             close_group()
             # lines before the statement
